@@ -101,6 +101,16 @@ func nestedLoopJoin(rm RelationManager, tf sql.TableReference) ([]*storage.Row, 
 				return nil, nil, err
 			}
 
+			// a table id (alias, else name) must be unique in the FROM clause:
+			// otherwise a qualified reference names a column on both sides
+			if len(rFields) > 0 {
+				for _, lf := range lFields {
+					if lf.TableID == rFields[0].TableID {
+						return nil, nil, fmt.Errorf("%w: table name or alias %s is used more than once", storage.ErrFieldAmbiguous, lf.TableID)
+					}
+				}
+			}
+
 			var tmpRows []*storage.Row
 
 			tmpFields := storage.Fields{}
